@@ -25,6 +25,8 @@ CLAIMED = {
          "interprocedural taint (value and shape) to a closed list of sinks, discharged by must-facts and a linear prover"),
  'C13': ("Static structure check of both channel implementations: a flag-aware must-pass-through analysis shows that with authentication enabled the received integer is written, true is returned and the receive counter advances only through the success edge of the MAC verification; both sides MAC line, delimiter and per-link sequence number; the tag is taken only when maclen octets follow the delimiter and the remainder is moved by the amount the pointer is set to; read() is bounded by the free space of a buffer allocated with that size; length hiding is symmetric; select and nonblock agree. Delivery under all fragmentations and schedules is not decided.", "§3 C13",
          "must-pass-through over the CFG with boolean flags in the path condition; send/receive pairing by symbolic terms; sibling agreement"),
+ 'C14': ("Static guard inventory of the reliable-broadcast state machine: per handler the threshold comparisons are normalised to polynomials over n and t and must be n-t, t, t+1, 2t+1, n-t where the protocol prescribes them; each of the six message kinds is recorded under a first-time guard; r-send payloads come only from the claimed sender and malformed tags are rejected before any table access; at every delivering exit the must-facts contain channel-ID equality, the FIFO implication, the advance of the sequence number and the integrity condition of that path; DeliverFrom hands out buffered values only for the current ID. Agreement/totality over all schedules and Byzantine behaviours are not decided (model-checking question).", "§3 C14",
+         "guard domination with affine normalisation of thresholds; must-facts at delivering exits; first-time-filter typestate"),
 }
 NA = {
  'C01': "algebraic identity over runtime group elements for all masking chains; no clause visible in code shape beyond what C03/C05/C08/C12 claim",
